@@ -1,5 +1,7 @@
 import Cppcheck.Proofs.ExcFunnel
 import Cppcheck.Gen.ExceptionFunnel
+import Cppcheck.Proofs.LifetimeBudget
+import Cppcheck.Gen.LifetimeBudget
 /-
 C13 — property theorems (part (a): exception funnel).  All statements are about the table
 `Cppcheck.Gen.ExceptionFunnel.prog`, regenerated from /repo's working tree on every run; the finite
@@ -85,5 +87,40 @@ theorem funnel_takes_analysis_types :
     [tyInternalError, ty_std_runtime_error, ty_std_bad_alloc].all
       (fun t => caughtBy hier (funnel_checkInternal_outer.handlers.map Prod.fst) t) = true := by
   decide +kernel
+
+/-! ### bounded work of the reference-following recursion (`getLifetimeTokens`, `followAllReferencesInternal`)
+
+`Gen.LifetimeBudget.fanoutCharges` lists, for the recursive calls inside the loops over the callee's return statements, the
+budget expression found in the source (`depth - returns.size()` = `.perReturns`, `depth - 1` = `.perCall`). -/
+
+open Cppcheck.LifetimeBudget in
+/-- with the budget charged by the number of return statements the recursion makes at most `(r + 1) * 2 ^ (depth + 1)`
+invocations — for the fixed initial budget this is linear in the size `r` of the callee -/
+theorem budget_perReturns_linear (r depth : Nat) : calls .perReturns r (depth + 1) ≤ (r + 1) * 2 ^ (depth + 1) :=
+  calls_perReturns_le r (depth + 1)
+
+open Cppcheck.LifetimeBudget in
+/-- with one unit charged per level the recursion makes at least `r ^ (depth + 1)` invocations; already for three recursive
+return statements and the initial budget of the code that exceeds the linear bound by three orders of magnitude -/
+theorem budget_perCall_explodes :
+    (∀ r depth, r ^ (depth + 1) ≤ calls .perCall r (depth + 1)) ∧
+    (3 + 1) * 2 ^ (initialDepth + 1) * 1000 < calls .perCall 3 (initialDepth + 1) := by
+  refine ⟨fun r d => calls_perCall_ge r (d + 1), ?_⟩
+  have h := calls_perCall_ge 3 (initialDepth + 1)
+  have : (3 + 1) * 2 ^ (initialDepth + 1) * 1000 < 3 ^ (initialDepth + 1) := by decide
+  omega
+
+open Cppcheck.LifetimeBudget in
+/-- which regime each fan-out site of the current source is in (the check requires the first for all four sites) -/
+theorem budget_verdict : ∀ p ∈ Cppcheck.Gen.LifetimeBudget.fanoutCharges, ∀ d ∈ Cppcheck.Gen.LifetimeBudget.initialDepths,
+    (p.2 = Charge.perReturns ∧ ∀ r, calls p.2 r (d + 1) ≤ (r + 1) * 2 ^ (d + 1)) ∨
+    (p.2 = Charge.perCall ∧ ∀ r, r ^ (d + 1) ≤ calls p.2 r (d + 1)) := by
+  intro p _ d _
+  cases hc : p.2 with
+  | perReturns => exact Or.inl ⟨rfl, fun r => calls_perReturns_le r (d + 1)⟩
+  | perCall => exact Or.inr ⟨rfl, fun r => calls_perCall_ge r (d + 1)⟩
+
+/-- on the current tree every fan-out site is in the bounded regime (non-vacuity of `budget_verdict`'s first case) -/
+example : Cppcheck.Gen.LifetimeBudget.fanoutCharges ≠ [] := by decide
 
 end Cppcheck.C13
